@@ -203,7 +203,7 @@ class StateMachineMeta(type):
         """
         inst: StateMachine = super().__call__(*args, **kwargs)
         inst.transition_to(inst.create_initial_state())
-        call_with_super_check(inst.init)
+        inst._run_init()
         return inst
 
 
@@ -270,6 +270,10 @@ class StateMachine(metaclass=StateMachineMeta):
         self.set_debug((not sys.flags.ignore_environment and bool(os.environ.get('PYTHONSMDEBUG'))))
         self._transitioning = False
         self._event_callbacks: Dict[Hashable, List[EVENT_CALLBACK_TYPE]] = {}
+
+    def _run_init(self) -> None:
+        """Call the ``init`` hook (a subclass can set up the context the hook is to run in)."""
+        call_with_super_check(self.init)
 
     @super_check
     def init(self) -> None:
